@@ -9,6 +9,8 @@ EXTENDS Naturals, Sequences, FiniteSets, TLC
 CONSTANTS MaxSegs, SegAlphabet, RuleLists, Certs,
           DevMatchRawPath,          \* deviation: rule prefix compared with the raw URL path (str.startswith)
           DevEmptyListMeansNoList,  \* deviation: configuration layer turns allowed_fingerprints = [] into "no list"
+          DevIndexNotJudged,        \* deviation (tree before its fix): a request for a directory is judged by the directory's path
+                                    \* only, while what is delivered is the directory's index file - a rule for that file is not applied
           DevClimbAndReturn         \* deviation (tree before its fix): "/../caproot/app/x" - above the document root and back in
                                     \* through its own name - is served, while the rules see "/caproot/app/x"
 \* "app-x" and "apple.gmi" share a name stem with "app": a rule for /app/ covers neither
@@ -78,8 +80,12 @@ RawCovers(p) ==     \* str.startswith("/"+"/".join(prefix)+"/") on the raw path 
 RECURSIVE FirstRaw(_)
 FirstRaw(rs) == IF rs = <<>> THEN [found |-> FALSE] ELSE IF RawCovers(Head(rs).prefix) THEN [found |-> TRUE, r |-> Head(rs)] ELSE FirstRaw(Tail(rs))
 \* the canonical path covers a directory by its own prefix ("/app" is covered by "/app/")
-Gate == IF DevMatchRawPath THEN Judge(FirstRaw(rules))
-        ELSE Judge(First(rules, NormAuth(Flat(path), <<>>)))
+\* a directory request is answered with the directory's index file: the rules of that file's own location apply as well
+GateCanon == LET p == NormAuth(Flat(path), <<>>)
+                 a == Judge(First(rules, p))
+                 b == Judge(First(rules, Append(p, "index.gmi"))) IN
+             IF a # "deliver" \/ DevIndexNotJudged THEN a ELSE b
+Gate == IF DevMatchRawPath THEN Judge(FirstRaw(rules)) ELSE GateCanon
 Result == IF Gate # "deliver" THEN Gate ELSE IF Served = <<"-none-">> THEN "51" ELSE "deliver"
 Init == rules \in RuleLists /\ path \in Paths /\ trailing \in BOOLEAN /\ cert \in Certs \cup {"none"} /\ out = "pending"
 Eval == out = "pending" /\ out' = Result /\ UNCHANGED <<rules, path, trailing, cert>>
